@@ -6,11 +6,11 @@ Require Import Pearl.Base.Prelude Pearl.Storage.Model Pearl.Storage.Spec Pearl.S
    maintenance operations, background requests, restarts (with or without close, eager or lazy) and
    index removals, for every key length K, every configuration and every key k: read/contains
    (Storage::get_latest_entry without meta) return the specification's answer on the log.
-   `s_f2 = false` excludes exactly the known class F2 (a write acknowledged with Err after its bytes
-   were appended to a blob whose index is on disk); C01_refuted_with_F2 shows the exclusion is needed. *)
+   No proviso: the class F2 (a write acknowledged with Err after its bytes were appended to a blob
+   whose index is on disk), which had to be excluded before the repair of restore_active, is
+   unreachable (C01_no_index_error_state). *)
 Theorem C01_read_latest :
   forall (K : N) (cfg : config) (ops : list op) (k : N),
-    s_f2 (reach K cfg ops) = false ->
     get_latest_entry (reach K cfg ops) k None = spec_read (abs (reach K cfg ops)) k.
 Proof. exact reach_read_latest. Qed.
 
@@ -36,8 +36,15 @@ Theorem C01_read_latest_state :
   forall (k : N) (s : storage), IdxInv s -> get_latest_entry s k None = spec_read (abs s) k.
 Proof. exact read_latest. Qed.
 
-(* non-vacuity: a concrete history with a tie across two blobs and a deletion marker; and the known
-   class F2 really breaks the statement (witness by computation) *)
+(* the ghost flag of the model (a record was appended to a blob whose index is on disk) is never
+   raised: the active blob's index is always in memory (InvProofs.ActiveInMemory) *)
+Theorem C01_no_index_error_state :
+  forall (K : N) (cfg : config) (ops : list op), s_f2 (reach K cfg ops) = false.
+Proof. exact never_f2. Qed.
+
+(* non-vacuity: a concrete history with a tie across two blobs and a deletion marker; and the history
+   that exhibited F2 before the repair (close_active; restore_active; write): the write is now
+   acknowledged and read back (by computation) *)
 Definition c01_cfg : config := {| c_dup := true; c_maxrec := 1000; c_maxsize := 1000000 |}.
 Definition c01_hist : list op :=
   [OOpen false; OWrite 1 7 None 8 5 1; OCloseActive; OWrite 1 7 None 8 5 2; ODelete 1 5 None 8 true; OClose; OOpen true].
@@ -48,12 +55,15 @@ Proof. vm_compute. split; reflexivity. Qed.
 
 Definition c01_f2_hist : list op :=
   [OOpen false; OWrite 1 7 None 8 5 1; OCloseActive; ORestoreActive; OWrite 1 9 None 8 5 2].
-Example C01_refuted_with_F2 :
-  s_f2 (reach 4 c01_cfg c01_f2_hist) = true /\
-  get_latest_entry (reach 4 c01_cfg c01_f2_hist) 1 None <> spec_read (abs (reach 4 c01_cfg c01_f2_hist)) 1.
-Proof. vm_compute. split; [reflexivity|discriminate]. Qed.
+Example C01_former_F2_history :
+  s_f2 (reach 4 c01_cfg c01_f2_hist) = false /\
+  snd (run 4 c01_cfg init_storage c01_f2_hist) = [RUnit; RUnit; RUnit; RUnit; RUnit] /\
+  get_latest_entry (reach 4 c01_cfg c01_f2_hist) 1 None = Found (mk_rec 1 9 false None 8 5 2) /\
+  get_latest_entry (reach 4 c01_cfg c01_f2_hist) 1 None = spec_read (abs (reach 4 c01_cfg c01_f2_hist)) 1.
+Proof. vm_compute. repeat split; reflexivity. Qed.
 
 Print Assumptions C01_read_latest.
 Print Assumptions C01_top_ranked_is_max.
 Print Assumptions C01_log_is_ordered_by_blob_id.
 Print Assumptions C01_read_latest_state.
+Print Assumptions C01_no_index_error_state.
